@@ -297,8 +297,14 @@ theorem rename_exact_tn (d0 : Char) (dr : List Char) (e0 : Char) (er : List Char
     (h : clean (renderAll (d0 :: dr) (e0 :: er) ps) (d0 :: dr) (e0 :: er) cfg = .ok out)
     (h' : clean (renderAll (d0' :: dr') (e0' :: er') ps') (d0' :: dr') (e0' :: er')
       { cfg with tlName := ρ cfg.tlName, rmName := ρ cfg.rmName } = .ok out') :
-    ∃ qs qs', out = renderAll (d0 :: dr) (e0 :: er) qs ∧ out' = renderAll (d0' :: dr') (e0' :: er') qs' ∧
-      PiecesRen ρ N qs qs' := by
+    ∃ qs qs' F F', out = renderAll (d0 :: dr) (e0 :: er) qs ∧ out' = renderAll (d0' :: dr') (e0' :: er') qs' ∧
+      PiecesRen ρ N qs qs' ∧
+      PExact (d0 :: dr) (e0 :: er) F qs (survivors (renderAll (d0 :: dr) (e0 :: er) ps) (d0 :: dr) (e0 :: er) cfg) 0 ∧
+      WsOnly F (toksBytes (survivors (renderAll (d0 :: dr) (e0 :: er) ps) (d0 :: dr) (e0 :: er) cfg)) ∧
+      PExact (d0' :: dr') (e0' :: er') F' qs' (survivors (renderAll (d0' :: dr') (e0' :: er') ps') (d0' :: dr') (e0' :: er')
+        { cfg with tlName := ρ cfg.tlName, rmName := ρ cfg.rmName }) 0 ∧
+      WsOnly F' (toksBytes (survivors (renderAll (d0' :: dr') (e0' :: er') ps') (d0' :: dr') (e0' :: er')
+        { cfg with tlName := ρ cfg.tlName, rmName := ρ cfg.rmName })) := by
   have hT := tokNs_of_tnorm (d0 :: dr) (e0 :: er) (d0' :: dr') (e0' :: er') ρ N ps ps' [] _ _ hren hstrip hstrip' htn htn'
   have hG := parse_n (d0 :: dr) (e0 :: er) (d0' :: dr') (e0' :: er') ρ N (fun _ _ => True) hρ (by simp) (by simp) (by simp) (by simp) _ _ hT
   have hP : ∀ el, N el.name →
@@ -314,9 +320,10 @@ theorem rename_exact_tn (d0 : Char) (dr : List Char) (e0 : Char) (er : List Char
     have := hnu e1 he1
     rw [← hee]
     exact this
-  obtain ⟨qs, s1, ranges, o1, k1, hu1, x1, f1⟩ := clean_exact d0 dr e0 er hd0 hel ps htn cfg out hnu h
-  obtain ⟨qs', s1', ranges', o2, k2, hu2, x2, f2⟩ := clean_exact d0' dr' e0' er' hd0' hel' ps' htn' _ out' hnu' h'
-  unfold parseSource at hu1 hu2 k1 k2 x1 x2 f1 f2
+  obtain ⟨qs, s1, ranges, o1, k1, hu1, x1, f1, w1⟩ := clean_exact d0 dr e0 er hd0 hel ps htn cfg out hnu h
+  obtain ⟨qs', s1', ranges', o2, k2, hu2, x2, f2, w2⟩ := clean_exact d0' dr' e0' er' hd0' hel' ps' htn' _ out' hnu' h'
+  unfold survivors
+  unfold parseSource at hu1 hu2 k1 k2 x1 x2 f1 f2 ⊢
   have hx := flatten_n _ _ _ _ ρ N _ _ _ (prune_n _ _ _ _ ρ N _ (conditionHolds cfg)
     (conditionHolds { cfg with tlName := ρ cfg.tlName, rmName := ρ cfg.rmName }) hP _ _ hG)
   have hidx := seamIdx_n (d0 :: dr) (e0 :: er) (d0' :: dr') (e0' :: er') ρ N (fun _ _ => True) (conditionHolds cfg)
@@ -338,7 +345,9 @@ theorem rename_exact_tn (d0 : Char) (dr : List Char) (e0 : Char) (er : List Char
   have hF := mergeOverlapped_rel (Rho L L') hmono ranges ranges' hrel
   have hres := pexact_ren (d0 :: dr) (e0 :: er) (d0' :: dr') (e0' :: er') ρ N L L' hf hx _ _ hF L.length 0 qs qs' rfl
     (Nat.zero_le _) (by simpa [bnd_zero] using x1) (by simpa [bnd_zero] using x2)
-  exact ⟨qs, qs', o1, o2, hres⟩
+  rw [k1] at w1
+  rw [k2] at w2
+  exact ⟨qs, qs', _, _, o1, o2, hres, x1, w1, x2, w2⟩
 
 /-- C18 for a change of tag names (and delimiters), documents without `unwrap-block` whose tags are grammar tags: the
     two spellings of one document are cleaned to the two spellings of one result -/
@@ -354,8 +363,14 @@ theorem rename_exact (d0 : Char) (dr : List Char) (e0 : Char) (er : List Char)
     (h : clean (renderAll (d0 :: dr) (e0 :: er) ps) (d0 :: dr) (e0 :: er) cfg = .ok out)
     (h' : clean (renderAll (d0' :: dr') (e0' :: er') ps') (d0' :: dr') (e0' :: er')
       { cfg with tlName := ρ cfg.tlName, rmName := ρ cfg.rmName } = .ok out') :
-    ∃ qs qs', out = renderAll (d0 :: dr) (e0 :: er) qs ∧ out' = renderAll (d0' :: dr') (e0' :: er') qs' ∧
-      PiecesRen ρ N qs qs' :=
+    ∃ qs qs' F F', out = renderAll (d0 :: dr) (e0 :: er) qs ∧ out' = renderAll (d0' :: dr') (e0' :: er') qs' ∧
+      PiecesRen ρ N qs qs' ∧
+      PExact (d0 :: dr) (e0 :: er) F qs (survivors (renderAll (d0 :: dr) (e0 :: er) ps) (d0 :: dr) (e0 :: er) cfg) 0 ∧
+      WsOnly F (toksBytes (survivors (renderAll (d0 :: dr) (e0 :: er) ps) (d0 :: dr) (e0 :: er) cfg)) ∧
+      PExact (d0' :: dr') (e0' :: er') F' qs' (survivors (renderAll (d0' :: dr') (e0' :: er') ps') (d0' :: dr') (e0' :: er')
+        { cfg with tlName := ρ cfg.tlName, rmName := ρ cfg.rmName }) 0 ∧
+      WsOnly F' (toksBytes (survivors (renderAll (d0' :: dr') (e0' :: er') ps') (d0' :: dr') (e0' :: er')
+        { cfg with tlName := ρ cfg.tlName, rmName := ρ cfg.rmName })) :=
   rename_exact_tn d0 dr e0 er d0' dr' e0' er' ρ N hρ hd0 hel hd0' hel' ps ps' hren
     (fun p hp => Piece.strip_of_fits _ _ _ _ p (hfree p hp)) (fun p hp => Piece.strip_of_fits _ _ _ _ p (hfree' p hp))
     (tokens_tnorm d0 dr e0 er ps (fun p hp => Piece.ok_of_fits _ _ _ _ p (hfree p hp)))
